@@ -1,4 +1,5 @@
 SPECIFICATION Spec
 CONSTANTS
+  MaxSent = 1
   Kinds <- MC_Quick
 CHECK_DEADLOCK FALSE
